@@ -523,7 +523,7 @@ class AutoSerialize:
         # --- Restore simple attributes ---
         for name, val in group.attrs.items():
             if (
-                name == "_autoserialize"
+                name in ("_autoserialize", "_autoserialize_skip_names", "_autoserialize_skip_types")
                 or name.endswith(".torch_save")
                 or name.endswith(".is_path")
             ):
